@@ -981,3 +981,37 @@ Qed.
 Lemma tag_schema_absent limit size items a cb_fail :
   tag_schema limit false size items a cb_fail = ([], Done).
 Proof. reflexivity. Qed.
+
+(* ---------- any callback behaviour: what was delivered is a prefix ---------- *)
+
+Lemma concat_firstn_skipn {A} (k : nat) (l : list (list A)) :
+  concat l = concat (firstn k l) ++ concat (skipn k l).
+Proof. rewrite <- concat_app. now rewrite firstn_skipn. Qed.
+
+Theorem listing_prefix_any_callback :
+  forall (L : list item) (cap : nat) (ds : nat -> decision)
+         (render : nat -> url -> url -> str) (trailer : nat -> str)
+         (resolve : url -> str -> option url) (c : cfg) (cb_fail : nat -> bool)
+         (path last0 : str) (fuel : nat),
+    c_kind c <> KReferrers ->
+    NoDup (map fst L) -> (forall it, In it L -> fst it <> []) ->
+    (forall i base x, In x (map fst L) ->
+       contains c_gt (render i base (link_target (ds i) base x)) = false) ->
+    (forall i base x, In x (map fst L) ->
+       resolve base (render i base (link_target (ds i) base x)) = Some (link_target (ds i) base x)) ->
+    (forall i, (Z.of_N (d_doc_len (ds i)) <= eff_limit (c_limit c))%Z) ->
+    (length (after last0 L) < fuel)%nat ->
+    let t := loop (reg_serve (c_kind c) L cap ds render trailer) resolve cb_fail c
+                  fuel 0 0 (mkUrl path []) last0 in
+    (t_out t = Done /\ concat (t_pages t) = after last0 L) \/
+    (t_out t = ErrCallback /\ exists rest', after last0 L = concat (t_pages t) ++ rest').
+Proof.
+  intros L cap ds render trailer resolve c cb_fail path last0 fuel K Hnd Hne Hgt Hres Hfit Hfuel.
+  destruct (listing_exactly_once L cap ds render trailer resolve c path last0 fuel K Hnd Hne Hgt Hres Hfit Hfuel)
+    as (O & P & _ & _).
+  destruct (loop_fail_prefix (reg_serve (c_kind c) L cap ds render trailer) resolve c cb_fail
+              fuel 0%nat 0%nat (mkUrl path []) last0) as [[E _]|(n & m & O1 & _ & P1 & _)].
+  - left. cbv zeta. rewrite E. auto.
+  - right. cbv zeta. split; [exact O1|]. rewrite P1. rewrite <- P.
+    eexists. apply concat_firstn_skipn.
+Qed.
